@@ -71,6 +71,7 @@ class Ctx:
         self.evidence_dir = evidence_dir if evidence_dir is not None else (VERIF / "evidence")
         self.controls: typing.Dict[str, typing.Any] = {}
         self._seen: typing.Set[typing.Tuple[str, str, str]] = set()
+        self.floor_failures: typing.List[str] = []
 
     # -- rule registration -------------------------------------------------
     def rule(self, rule_id: str, text: str) -> None:
@@ -113,7 +114,9 @@ class Ctx:
         """Instance floor: fewer matches than confirmed by hand means the anchor vanished -> analysis broken."""
         self.floors[rule] = (found, minimum)
         if found < minimum:
-            raise AnalysisError(
+            # deferred to finish(): a violation that was decided on the instances that do exist is still reported (exit 1);
+            # with no violation the run is analysis-broken (exit 2), never a silent pass
+            self.floor_failures.append(
                 f"rule {rule}: anchor missing - matched {found} instance(s), floor confirmed on the pinned tree is {minimum}"
             )
 
@@ -190,7 +193,11 @@ class Ctx:
             f"discharged={n_ob - len(violations)} known={len(matched_known)} new_violations={len(new_violations)} "
             f"wall={time.time() - self.t0:.2f}s"
         )
-        return 1 if new_violations else 0
+        if new_violations:
+            return 1
+        if self.floor_failures:
+            raise AnalysisError("; ".join(self.floor_failures))
+        return 0
 
     def _write_evidence(self, violations, matched_known, new_violations) -> None:
         n_ob = len(self.obligations)
